@@ -21,7 +21,7 @@ from ..tlc import Workdir
 
 PROP = "C03"
 INVS = ["PrefixOptimal", "NonNegNonDecr", "BranchAgrees", "PruneSound", "WellFormed", "ReEvaluate",
-        "IgnorePoints", "TableAdmissible", "AffectedAdmitted"]
+        "IgnorePoints", "TableAdmissible", "AffectedAdmitted", "RefSeqIsRef"]
 
 
 def consts(**kw):
@@ -350,11 +350,70 @@ def record_r3(seed, count, nmax):
     return out
 
 
+def record_long(seed, count):
+    """Long series (n 60..200) through CAPA / MVCAPA with the L2 saving: behaviour that only shows after many
+    iterations (pruning over long horizons, max_segment_length much smaller than n)."""
+    from skchange.anomaly_detectors import CAPA, MVCAPA
+    from skchange.anomaly_detectors.mvcapa import capa_penalty_factory
+    from skchange.anomaly_scores import L2Saving
+
+    rng = np.random.default_rng(seed)
+    out = []
+    for i in range(count):
+        n = int(rng.integers(60, 201))
+        p = int(rng.integers(1, 3))
+        m = int(rng.choice([2, 3, 5]))
+        mx = int(rng.choice([m + 3, 15, 40, 1000]))
+        X = rng.integers(-2, 3, size=(n, p)) / 2.0
+        for _ in range(int(rng.integers(1, 6))):
+            s0 = int(rng.integers(0, n - 3))
+            e0 = min(n, s0 + int(rng.integers(1, 30)))
+            X[s0:e0, rng.integers(0, p)] += float(rng.integers(-5, 6))
+        cscale, pscale = float(rng.choice([0.2, 0.5, 1.0])), float(rng.choice([0.2, 0.5, 1.0]))
+        use_capa = bool(rng.integers(0, 2))
+        ref = L2Saving().fit(X)
+        cuts = np.array([(s, e) for s in range(n) for e in range(s + 1, min(n, s + min(mx, n)) + 1)])
+        vals = ref.evaluate(cuts)
+        try:
+            if use_capa:
+                det = CAPA(collective_penalty_scale=cscale, point_penalty_scale=pscale, min_segment_length=m, max_segment_length=mx).fit(X)
+                outp = det.predict(X)
+                ca, cb, pa, pb, pp = float(det.collective_penalty_), [0.0], float(det.point_penalty_), [0.0], 1
+                vals = vals.sum(axis=1, keepdims=True)
+            else:
+                fam = str(rng.choice(["dense", "sparse", "combined"]))
+                det = MVCAPA(collective_penalty=fam, collective_penalty_scale=cscale, point_penalty="sparse", point_penalty_scale=pscale,
+                             min_segment_length=m, max_segment_length=mx).fit(X)
+                outp = det.predict(X)
+                ca, cb = capa_penalty_factory(fam)(n, p, 1, scale=cscale)
+                pa, pb = capa_penalty_factory("sparse")(n, p, 1, scale=pscale)
+                ca, cb, pa, pb, pp = float(ca), [float(x) for x in cb], float(pa), [float(x) for x in pb], p
+        except Exception as e:
+            out.append({"id": f"long-{seed}-{i}", "error": repr(e)[:200], "n": n, "p": p, "m": m, "mx": mx, "X": X.tolist(), "saving": "L2Saving"})
+            continue
+        rows = rows_of(outp)
+        sc = det.scores.to_numpy()
+        allv = [float(v) for v in vals.ravel()] + [ca, pa] + cb + pb + [float(x) for x in sc]
+        mag = max(1.0, max(abs(v) for v in allv))
+        unit = mag * (2 * n + 6) * max(1, pp) / 2 ** 30
+        q = lambda v: int(round(v / unit))
+        S = [[[0] * pp for _ in range(n)] for _ in range(n)]
+        for (s, e), v in zip(cuts, vals):
+            S[int(s)][int(e) - 1] = [q(float(x)) for x in v]
+        out.append({"id": f"long-{seed}-{i}", "rec": "run", "regime": "R3", "entry": "CAPA" if use_capa else "MVCAPA", "saving": "L2Saving",
+                    "family": "long", "n": n, "p": pp, "m": m, "mx": min(mx, n), "ca": q(ca), "cb": [q(x) for x in cb], "pa": q(pa),
+                    "pb": [q(x) for x in pb], "tol": 2 * n * (pp + 1) + 4, "unit": unit, "ignore": False, "S": S,
+                    "scores": [q(float(x)) for x in sc], "rows": [list(r) for r in rows], "X": []})
+    return out
+
+
 def _rec(args):
     import warnings
 
     warnings.filterwarnings("ignore")
     kind, seed, count, nmax = args
+    if kind == "long":
+        return record_long(seed, count)
     return record_r1(seed, count, nmax) if kind == "r1" else record_r3(seed, count, nmax)
 
 
@@ -402,7 +461,8 @@ def run(tier: str) -> int:
                                       {"detector": "CAPA", "input_sha": key, "clause": clause})
         n_r1, n_r3 = (480, 480) if tier == "quick" else (8000, 8000)
         jobs = [("r1", chk.seed + k, n_r1 // 16, 10) for k in range(16)] + \
-               [("r3", chk.seed + 100 + k, n_r3 // 16, 10) for k in range(16)]
+               [("r3", chk.seed + 100 + k, n_r3 // 16, 10) for k in range(16)] + \
+               [("long", chk.seed + 200 + k, 1 if tier == "quick" else 10, 0) for k in range(8)]
         with ProcessPoolExecutor(max_workers=stages.NCPU) as ex:
             traces = [t for part in ex.map(_rec, jobs) for t in part]
         judge_traces(chk, traces, wd)
@@ -416,7 +476,8 @@ def judge_traces(chk, traces, wd, label="C:capa"):
         chk.violation({"stage": "C", "trace": t}, "raises",
                       {"detector": "CAPA", "clause": "raises", "input_sha": sha(t.get("X"))})
     traces = [t for t in traces if "error" not in t]
-    verdicts = stages.validate_traces(chk, "Trace_Capa", traces, wd=wd, label=label, batch=200)
+    verdicts = stages.validate_traces(chk, "Trace_Capa", [t for t in traces if t["n"] <= 40], wd=wd, label=label, batch=200)
+    verdicts.update(stages.validate_traces(chk, "Trace_Capa", [t for t in traces if t["n"] > 40], wd=wd, label=label + "-long", batch=2))
     for tr in traces:
         v = verdicts.get(tr["id"])
         key = sha([tr[k] for k in ("n", "p", "m", "mx", "ca", "cb", "pa", "pb", "S")])
